@@ -117,7 +117,27 @@ pub fn gen_sess_run(check: &str, seed: u64, tier: Tier, with_probes: bool) -> Ru
         run.set("nodewise", 1);
     }
     run.set("oracle_seed", (f.next() >> 1) as i64);
-    run.set("analysis", Rng::stream(seed, "analysis").chance(1, 3) as i64);
+    {
+        // 0: no Analysis (two thirds of the runs); 1: the simulator's analysis; 2: the same with its
+        // modify hook for LS (b(x, 0) = x: unions from inside rebuild, also inside add)
+        let mut ar = Rng::stream(seed, "analysis");
+        let a = [0, 0, 0, 0, 1, 2][ar.below(6)];
+        run.set("analysis", a);
+        if a == 2 && run.get("wide") == 0 {
+            // material for the hook: a g-node around an existing term (a slot of the term or another one)
+            let terms = all_terms(&run.ops);
+            if !terms.is_empty() {
+                let x = ar.pick(&terms).clone();
+                let mut cands: Vec<S> = x.free_vec();
+                cands.push(0);
+                cands.push(1);
+                let sl = *ar.pick(&cands);
+                let t = Tm::node("g", vec![sl], vec![(vec![], x)]);
+                let pos = ar.below(run.ops.len() + 1);
+                run.ops.insert(pos, Op::new("add").t(t));
+            }
+        }
+    }
     if tier == Tier::Thorough && f.chance(1, 2) {
         run.set("checkpoint_every_union", 1);
     }
@@ -387,11 +407,39 @@ pub struct CcCtx {
     pub cc: Cc,
     pub tracked: Vec<Tm>,
     pub eqs: Vec<(Tm, Tm)>,
+    /// the run's Analysis has the modify hook `g(s, x) = x`: the oracle asserts that equation for every
+    /// tracked (sub)term `g(s, t)`
+    pub unit_schema: bool,
 }
 
 impl CcCtx {
     pub fn new(n: usize) -> CcCtx {
-        CcCtx { cc: Cc::new(n), tracked: Vec::new(), eqs: Vec::new() }
+        CcCtx { cc: Cc::new(n), tracked: Vec::new(), eqs: Vec::new(), unit_schema: false }
+    }
+    /// closes the oracle (including the equations the modify hook stands for)
+    pub fn close(&mut self) {
+        self.cc.close();
+        if !self.unit_schema {
+            return;
+        }
+        // `g(s, x) = x` for every tracked (sub)term
+        let mut new: Vec<(Tm, Tm)> = Vec::new();
+        for t in &self.tracked {
+            for sub in t.subterms() {
+                if sub.name() == "g" && sub.kids.len() == 1 {
+                    let pair = (sub.clone(), sub.kids[0].t.clone());
+                    if self.cc.is_tracked(&pair.0) && self.cc.is_tracked(&pair.1) && !self.eqs.contains(&pair) && !new.contains(&pair) {
+                        new.push(pair);
+                    }
+                }
+            }
+        }
+        if !new.is_empty() {
+            for (a, b) in new {
+                self.assert_eq(&a, &b);
+            }
+            self.cc.close();
+        }
     }
     pub fn track(&mut self, t: &Tm) {
         self.cc.track(t);
@@ -439,7 +487,7 @@ pub fn compare_with_oracle<L: SimLang, N: Analysis<L>>(
     at_op: usize,
 ) -> Vec<Violation> {
     let mut viol: Vec<Violation> = Vec::new();
-    ctx.cc.close();
+    ctx.close();
     let n = ctx.cc.n;
     let nt = s.tracked.len();
 
@@ -647,7 +695,7 @@ impl Check for SessCc {
         // a third of the runs carry the simulator's analysis (min size / depth / height): worklist
         // entries then come in two kinds (analysis-only and full) and data changes re-queue parents
         if run.get("analysis") != 0 {
-            self.exec_with(run, EGraph::new(crate::analysis::SimAn { p: 3, modify: false }))
+            self.exec_with(run, EGraph::new(crate::analysis::SimAn { p: 3, modify: run.get("analysis") == 2 }))
         } else {
             self.exec_with(run, EGraph::new(()))
         }
@@ -664,6 +712,7 @@ impl SessCc {
         let mut s: Sess<LS, N> = Sess::new(eg, run.get("naming") as u32);
         let n = pool_size(&run.ops);
         let mut ctx = CcCtx::new(n);
+        ctx.unit_schema = run.get("analysis") == 2;
         let mut orng = Rng::stream(run.get("oracle_seed") as u64, "oracle-sampling");
         let thorough_checkpoints = run.get("checkpoint_every_union") != 0;
         let mut any_change = false;
